@@ -45,7 +45,7 @@ def cases(tier, seed):
     out = []
     times = list(scope.TIMES) + ([float("inf")] if tier == "thorough" else [])
     for nd in (2, 3):
-        meshes = list(scope.named_meshes(nd)) + [chain_mesh(nd, 4), chain_mesh(nd, 2)]
+        meshes = list(scope.named_meshes(nd)) + [chain_mesh(nd, 4), chain_mesh(nd, 2)] + scope.thin_meshes(nd) + scope.far_index_meshes(nd)
         if tier == "thorough":
             blocks = (2, 2) if nd == 2 else (2, 1, 2)
             for t in scope.level0_tilings(blocks, 4):
